@@ -23,7 +23,8 @@ def ili_file(rng, pool):
     rows = []
     for i in rng.sample(pool, rng.randint(1, len(pool))):
         vals = {'ili': i, 'status': rng.choice(['active', 'active', 'provisional', 'deprecated', 'weird', 'presupposed']),
-                'definition': rng.choice(['a thing', 'another & <thing>', '', 'x y', '"hot dog": a sausage', '"unclosed quote', "it's", 'semi;colon, comma'])}
+                'definition': rng.choice(['a thing', 'another & <thing>', '', 'x y', '"hot dog": a sausage', '"unclosed quote', "it's", 'semi;colon, comma',
+                                         'first clause;\u2028second clause', 'page\x0cbreak', 'next\x85line', 'unit\x1fsep \x1c\x1d\x1e', 'vertical\x0btab', 'para\u2029graph'])}
         cells = [vals.get(h.lower(), 'zzz') for h in header]
         if rng.random() < 0.2:
             cells = cells[:rng.randint(1, len(cells))]     # short row
